@@ -59,6 +59,22 @@ func getNodeInt32(node ast.Node, meth any, field string) (int, error) {
 	return int(num), nil
 }
 
+// floatToInt64 converts f to an int64, truncating its fraction. A value beyond
+// the range of int64 becomes the nearest limit and NaN becomes
+// [math.MinInt64], so that the range checks of the callers reject them. (The
+// result of the plain conversion int64(f) is implementation-dependent for such
+// values: on amd64 it happens to be math.MinInt64, but on 386 and wasm
+// $[1e300] selected the first element and 1e21.integer() returned 0.)
+func floatToInt64(f float64) int64 {
+	switch {
+	case f >= math.MaxInt64:
+		return math.MaxInt64
+	case f <= math.MinInt64, math.IsNaN(f):
+		return math.MinInt64
+	}
+	return int64(f)
+}
+
 // getJSONInt32 casts val to int32 and returns it. If val is a float, its
 // value will be truncated, not rounded. The op param is used in error
 // messages.
@@ -74,7 +90,7 @@ func getJSONInt32(val any, op string) (int, error) {
 				ErrVerbose, op,
 			)
 		}
-		num = int64(val)
+		num = floatToInt64(val)
 	case json.Number:
 		if integer, err := val.Int64(); err == nil {
 			num = integer
@@ -85,7 +101,7 @@ func getJSONInt32(val any, op string) (int, error) {
 					ErrVerbose, op,
 				)
 			}
-			num = int64(float)
+			num = floatToInt64(float)
 		} else {
 			// json.Number should never be invalid.
 			return 0, fmt.Errorf(
